@@ -6,8 +6,10 @@ set -e
 OUT="$1"
 mkdir -p "$OUT"
 H=/verif/harness
-cp /repo/go.mod "$OUT/go.mod"
-cp /repo/go.sum "$OUT/go.sum"
+REPO="${VERIF_REPO:-/repo}"
+export REPO
+cp "$REPO/go.mod" "$OUT/go.mod"
+cp "$REPO/go.sum" "$OUT/go.sum"
 cat >> "$OUT/go.mod" <<EOM
 
 require pgregory.net/rapid v1.3.0
@@ -15,15 +17,16 @@ EOM
 python3 - "$OUT" <<'EOP'
 import json,os,sys,glob
 out=sys.argv[1]
+repo=os.environ.get("REPO","/repo")
 rep={}
 tmpl=open("/verif/harness/common/vstats.go.in").read()
 for pkg in ("server","protocol","client"):
     g=os.path.join(out,f"vstats_{pkg}_test.go")
     open(g,"w").write(tmpl.replace("PKGNAME",pkg))
-    rep[f"/repo/{pkg}/zz_verif_vstats_test.go"]=g
+    rep[f"{repo}/{pkg}/zz_verif_vstats_test.go"]=g
     for f in sorted(glob.glob(f"/verif/harness/{pkg}/*.go")):
         b=os.path.basename(f)
         if not b.endswith("_test.go"): b=b[:-3]+"_test.go"
-        rep[f"/repo/{pkg}/zz_verif_{b}"]=f
+        rep[f"{repo}/{pkg}/zz_verif_{b}"]=f
 json.dump({"Replace":rep},open(os.path.join(out,"overlay.json"),"w"),indent=1)
 EOP
